@@ -75,6 +75,10 @@ def parse_contracts(path):
         if m:
             out.append({"fn": m.group(1), "kind": "closure", "anchor": m.group(2), "text": "\n".join(s["text"]).strip()})
             continue
+        m = re.match(r"fn (\S+) at (body-start|loop-body-start|loop-body-end|loop-after)$", h)
+        if m:
+            out.append({"fn": m.group(1), "kind": "at", "where": m.group(2), "text": "\n".join(s["text"]).rstrip() + "\n"})
+            continue
         m = re.match(r"fn (\S+) splice (before|after) (.*)$", h)
         if m:
             out.append({"fn": m.group(1), "kind": "splice", "pos": m.group(2), "anchor": m.group(3), "text": "\n".join(s["text"]).rstrip() + "\n"})
@@ -160,14 +164,37 @@ def assemble(repo=None, contracts_path=None, prelude_path=None, mutate=None):
         body2 = body
         cs = [c for c in contracts if c["fn"] == qual]
         contract = "".join(c["text"] for c in cs if c["kind"] == "contract")
-        for c in cs:
-            if c["kind"] == "invariant":
-                a = "for keyframe in keyframes.into_iter() {"
-                if a not in body2:
+        LOOP = "for keyframe in keyframes.into_iter() {"
+        structural = [c for c in cs if c["kind"] in ("invariant", "at")]
+        if structural:
+            # structural anchors (brace matching on the ORIGINAL body, applied back to front so offsets stay valid)
+            inserts = []  # (offset, text)
+            loop_needed = any(c["kind"] == "invariant" or c["where"].startswith("loop") for c in structural if c["kind"] != "at" or True)
+            lo = body2.find(LOOP)
+            if any((c["kind"] == "invariant") or (c["kind"] == "at" and c["where"].startswith("loop")) for c in structural):
+                if lo < 0 or body2.count(LOOP) != 1:
                     raise Undecided("anchor lost: for loop header in %s (V-R2)" % qual)
-                body2 = body2.replace(a, "for keyframe in it: keyframes.into_iter()\n" + c["text"] + "        {", 1)
-                report["edits_applied"].append("V-R2")
-            elif c["kind"] == "closure":
+                lob = lo + len(LOOP) - 1
+                lcb = vlib.find_matching_brace(body2, lob)
+            for c in structural:
+                if c["kind"] == "invariant":
+                    inserts.append((lo, len(LOOP), "for keyframe in it: keyframes.into_iter()\n" + c["text"] + "        {"))
+                    report["edits_applied"].append("V-R2")
+                elif c["where"] == "body-start":
+                    inserts.append((1, 0, "\n" + c["text"]))
+                elif c["where"] == "loop-body-start":
+                    inserts.append((lob + 1, 0, "\n" + c["text"]))
+                elif c["where"] == "loop-body-end":
+                    inserts.append((lcb, 0, c["text"]))
+                elif c["where"] == "loop-after":
+                    inserts.append((lcb + 1, 0, "\n" + c["text"]))
+            # stable order: by offset descending; for equal offsets keep file order reversed
+            for off, ln, txt in sorted(inserts, key=lambda x: -x[0]):
+                body2 = body2[:off] + txt + body2[off + ln:]
+        for c in cs:
+            if c["kind"] in ("invariant", "at"):
+                continue
+            if c["kind"] == "closure":
                 # V-R6: `|args| body` -> `|args| -> (ret) ensures .. { body }`; the section text is the annotated form and
                 # must contain the original closure text verbatim as its body
                 if body2.count(c["anchor"]) != 1 or c["anchor"].split("|")[-1].strip() not in c["text"]:
